@@ -33,6 +33,10 @@ type ClientScnPlan struct {
 	Mode   string    `json:"mode"` // ondemand | auto
 	Tasks  [][]CliOp `json:"tasks"`
 	Server []SrvOp   `json:"server"`
+	// ProbeDeadlineMs: the recovery calls carry a deadline of their own and are repeated (0: no deadline)
+	ProbeDeadlineMs int `json:"probe_deadline_ms,omitempty"`
+	// NoSettle: the recovery calls start right after the last fault instead of after the back-off cap
+	NoSettle bool `json:"no_settle,omitempty"`
 }
 
 type clientScn struct{}
@@ -47,6 +51,8 @@ func (clientScn) Generate(g *simrt.Rng, tier string) any {
 	p.Opt.ConnChannels = 1 + g.IntN(4)
 	p.Opt.DialTimeoutMs = simrt.Pick(g, 50, 500, 2000)
 	p.Opt.Compression = g.Bool(0.3)
+	p.ProbeDeadlineMs = simrt.Pick(g, 0, 0, 100, 300, 600)
+	p.NoSettle = g.Bool(0.5)
 	p.Net.BufCap = 0
 	nT := 2 + g.IntN(5)
 	closers := 0
@@ -371,7 +377,9 @@ func (r *clientRun) main() {
 	// still take the dial timeout, then at most the 1 s back-off cap, then one healthy dial.
 	if !r.closed {
 		bound := time.Duration(p.Opt.DialTimeoutMs)*time.Millisecond + time.Second + 200*time.Millisecond
-		hSleep(bound)
+		if !(p.NoSettle && p.ProbeDeadlineMs > 0 && p.Mode != "auto") {
+			hSleep(bound)
+		}
 		hWaitQuiescent("client.recovery-settle")
 		if r.closed {
 			// a task closed the client meanwhile
@@ -382,12 +390,30 @@ func (r *clientRun) main() {
 				}
 				r.probes["auto_reconnects_checked"]++
 			}
-			last := r.echo(r.bg)
-			if !last.OK() {
+			var last status.Status
+			if p.ProbeDeadlineMs > 0 {
+				// a caller with a deadline of its own on every call, shorter than the back-off cap, that simply
+				// tries again: the dial started by one call must survive that call giving up
+				for k := 0; k < 25; k++ {
+					cctx := async.TimeoutContext(time.Duration(p.ProbeDeadlineMs) * time.Millisecond)
+					last = r.echo(cctx)
+					cctx.Free()
+					if last.OK() {
+						break
+					}
+				}
+				if !last.OK() {
+					simrt.Fail("C19-no-recovery", "with the server back and no faults for %v, 25 calls with a deadline of %d ms each all failed, the last with %s", bound, p.ProbeDeadlineMs, stName(last))
+				}
+				r.probes["recovery_with_call_deadlines_checked"]++
+			} else {
 				last = r.echo(r.bg)
-			}
-			if !last.OK() {
-				simrt.Fail("C19-no-recovery", "with the server back and no faults for %v a call still fails: %s", bound, stName(last))
+				if !last.OK() {
+					last = r.echo(r.bg)
+				}
+				if !last.OK() {
+					simrt.Fail("C19-no-recovery", "with the server back and no faults for %v a call still fails: %s", bound, stName(last))
+				}
 			}
 			r.probes["recovery_calls_checked"]++
 		}
